@@ -25,18 +25,30 @@ func matchKnown(c Case, o benchgen.Outcome) string {
 		strings.Contains(o.Stderr, "processRDMADrainRsp") && strings.Contains(o.Stderr, "nil pointer dereference") {
 		return "C01-K1"
 	}
-	// C01-K2: timing mode, stale L1 vector-cache lines across kernel launches.
-	// Signature: a verification mismatch reported by the workload itself (not an
-	// engine panic) in timing mode, in a run with >= 3 dependent kernel passes
-	// over the same buffers, and the very same case passes in emulation.
-	if c.Timing && benchgen.RereadsAcrossKernels(c) && !enginePanic(o.Stderr) && evidenceRe.MatchString(o.Stderr) && stats.KnownActive("C01-K2") {
-		e := c
-		e.Timing = false
-		e.GPUType = ""
-		if admissible(e) == "" {
-			eo := benchgen.RunWorker(e, nil)
-			if eo.Harness == "" && !eo.TimedOut && eo.Exit == 0 && eo.Signal == "" {
+	// C01-K2: timing mode, stale L1 vector/scalar cache lines across kernel launches.
+	// Causal signature: a verification mismatch reported by the workload itself (not an engine
+	// panic) in timing mode that disappears when the very same case is repeated with the worker's
+	// diagnosis switch BENCHRUN_INVALIDATE_L1 (every L1 vector/scalar cache forgets its lines
+	// whenever a kernel launch command starts). If that repetition is itself inconclusive
+	// (time-out), the older signature applies: >= 3 dependent kernel passes over the same
+	// buffers and the same case passes in emulation.
+	if c.Timing && !enginePanic(o.Stderr) && evidenceRe.MatchString(o.Stderr) && stats.KnownActive("C01-K2") {
+		x := benchgen.RunWorker(c, []string{"BENCHRUN_INVALIDATE_L1=1"})
+		if x.Harness == "" && !x.TimedOut {
+			if x.Exit == 0 && x.Signal == "" {
 				return "C01-K2"
+			}
+			return ""
+		}
+		if benchgen.RereadsAcrossKernels(c) {
+			e := c
+			e.Timing = false
+			e.GPUType = ""
+			if admissible(e) == "" {
+				eo := benchgen.RunWorker(e, nil)
+				if eo.Harness == "" && !eo.TimedOut && eo.Exit == 0 && eo.Signal == "" {
+					return "C01-K2"
+				}
 			}
 		}
 	}
